@@ -8,6 +8,8 @@ package main
 // coq/Model/Equiv.v (http_front, grpc_front) predicts both outcomes from the logical request alone.
 
 import (
+	"github.com/resonatehq/resonate/pkg/schedule"
+	"reflect"
 	"bufio"
 	"context"
 	"encoding/json"
@@ -476,6 +478,16 @@ func cmdEquiv(args []string) {
 				resp.Body.Close()
 				hout = foutT(stub.seen, resp.StatusCode >= 400 && resp.StatusCode < 500, resp.StatusCode >= 500)
 			}
+			// a search that reached the kernel: the cursor a front end hands out must lead the kernel to exactly the next
+			// request the kernel named (C14: the traversal continues where it stopped, whatever states / tags / limit it carries)
+			if l.search != nil && stub.seen != nil && hout.([]any)[0].(string) == "FReached" {
+				if !cursorRoundTripHTTP(stub, client, base, stub.seen) {
+					hout = C("FBroken")
+					stats["cursor-broken-http"]++
+				} else {
+					stats["cursor-ok-http"]++
+				}
+			}
 			// ---- gRPC ----
 			desc, f := exprGRPC(gs, ctx, l)
 			stub.seen = nil
@@ -495,6 +507,14 @@ func cmdEquiv(args []string) {
 				}
 			}()
 			gout := foutT(stub.seen, rejected, broken)
+			if l.search != nil && stub.seen != nil && gout.([]any)[0].(string) == "FReached" {
+				if !cursorRoundTripGRPC(stub, gs, ctx, stub.seen) {
+					gout = C("FBroken")
+					stats["cursor-broken-grpc"]++
+				} else {
+					stats["cursor-ok-grpc"]++
+				}
+			}
 			for _, o := range []term{hout, gout} {
 				stats[o.([]any)[0].(string)]++
 			}
@@ -505,6 +525,115 @@ func cmdEquiv(args []string) {
 			panic(err)
 		}
 	}
+}
+
+// nextOf is the request the (stub) kernel names as the continuation of a search: the same query below sort id 7
+func nextOf(first *t_api.Request) (*t_api.Response, *t_api.Request) {
+	sid := int64(7)
+	switch first.Kind {
+	case t_api.SearchPromises:
+		n := *first.SearchPromises
+		n.SortId = &sid
+		return &t_api.Response{Kind: first.Kind, Tags: first.Tags, SearchPromises: &t_api.SearchPromisesResponse{Status: t_api.StatusOK,
+			Cursor: &t_api.Cursor[t_api.SearchPromisesRequest]{Next: &n}, Promises: []*promise.Promise{}}}, &t_api.Request{Kind: first.Kind, SearchPromises: &n}
+	case t_api.SearchSchedules:
+		n := *first.SearchSchedules
+		n.SortId = &sid
+		return &t_api.Response{Kind: first.Kind, Tags: first.Tags, SearchSchedules: &t_api.SearchSchedulesResponse{Status: t_api.StatusOK,
+			Cursor: &t_api.Cursor[t_api.SearchSchedulesRequest]{Next: &n}, Schedules: []*schedule.Schedule{}}}, &t_api.Request{Kind: first.Kind, SearchSchedules: &n}
+	}
+	return nil, nil
+}
+
+func sameSearch(a, b *t_api.Request) bool {
+	if a == nil || b == nil || a.Kind != b.Kind {
+		return false
+	}
+	if a.Kind == t_api.SearchPromises {
+		return reflect.DeepEqual(a.SearchPromises, b.SearchPromises)
+	}
+	return reflect.DeepEqual(a.SearchSchedules, b.SearchSchedules)
+}
+
+func cursorRoundTripHTTP(stub *stubAPI, client *http.Client, base string, first *t_api.Request) (ok bool) {
+	res, want := nextOf(first)
+	if res == nil {
+		return true
+	}
+	defer func() { stub.reply = nil }()
+	stub.reply = func(*t_api.Request) (*t_api.Response, error) { return res, nil }
+	path := "/promises"
+	if first.Kind == t_api.SearchSchedules {
+		path = "/schedules"
+	}
+	// ask again (the same query) to be handed the cursor
+	q := url.Values{}
+	if first.Kind == t_api.SearchPromises {
+		q.Set("id", first.SearchPromises.Id)
+		q.Set("limit", fmt.Sprintf("%d", first.SearchPromises.Limit))
+	} else {
+		q.Set("id", first.SearchSchedules.Id)
+		q.Set("limit", fmt.Sprintf("%d", first.SearchSchedules.Limit))
+	}
+	resp, err := client.Get(base + path + "?" + q.Encode())
+	if err != nil {
+		return false
+	}
+	body, _ := io.ReadAll(resp.Body)
+	resp.Body.Close()
+	var parsed map[string]any
+	if json.Unmarshal(body, &parsed) != nil {
+		return false
+	}
+	tok, _ := parsed["cursor"].(string)
+	if tok == "" {
+		return false
+	}
+	stub.seen = nil
+	resp, err = client.Get(base + path + "?cursor=" + url.QueryEscape(tok))
+	if err != nil {
+		return false
+	}
+	_, _ = io.Copy(io.Discard, resp.Body)
+	resp.Body.Close()
+	return resp.StatusCode == 200 && sameSearch(stub.seen, want)
+}
+
+func cursorRoundTripGRPC(stub *stubAPI, gs *grpcApi.VerifSrv, ctx context.Context, first *t_api.Request) (ok bool) {
+	res, want := nextOf(first)
+	if res == nil {
+		return true
+	}
+	defer func() { stub.reply = nil }()
+	defer func() {
+		if e := recover(); e != nil {
+			ok = false
+		}
+	}()
+	stub.reply = func(*t_api.Request) (*t_api.Response, error) { return res, nil }
+	tok := ""
+	if first.Kind == t_api.SearchPromises {
+		r, err := gs.SearchPromises(ctx, &pb.SearchPromisesRequest{Id: first.SearchPromises.Id, Limit: int32(first.SearchPromises.Limit)})
+		if err != nil {
+			return false
+		}
+		tok = r.Cursor
+		stub.seen = nil
+		if _, err := gs.SearchPromises(ctx, &pb.SearchPromisesRequest{Cursor: tok}); err != nil {
+			return false
+		}
+	} else {
+		r, err := gs.SearchSchedules(ctx, &pb.SearchSchedulesRequest{Id: first.SearchSchedules.Id, Limit: int32(first.SearchSchedules.Limit)})
+		if err != nil {
+			return false
+		}
+		tok = r.Cursor
+		stub.seen = nil
+		if _, err := gs.SearchSchedules(ctx, &pb.SearchSchedulesRequest{Cursor: tok}); err != nil {
+			return false
+		}
+	}
+	return tok != "" && sameSearch(stub.seen, want)
 }
 
 func init() { extraCmds["equiv"] = cmdEquiv }
